@@ -4,11 +4,11 @@ CONSTANTS
   NW = 2
   NT = 3
   NG = 2
-  KCodes = {0, 1010000, 1030002, 3000100, 15150101, 2020505}
+  KCodes = {0, 1030002, 15150101, 2020505}
   WIds = {3, 4}
   LMode = "mixed"
-  ECodes = {0, 100, 1}
-  TCodes = {111,123,321}
+  ECodes = {0, 100}
+  TCodes = {111,132}
   QuadIds = {4}
   ClampE = 15
   SlackE = 14
